@@ -292,6 +292,9 @@ pub enum EventKind {
     ForeignTracer { tid: i32, on: bool },
     /// the target maps a new anonymous read-write region
     MapAnon { start: u64, len: u64, seed: u64 },
+    /// somebody sends SIGCONT to the target (a shell's `fg`, a supervisor's `kill -CONT`): whatever its
+    /// disposition, generating it ends a group stop and discards every pending stop signal
+    ContinueProcess,
 }
 
 #[derive(Serialize, Deserialize, Clone, Debug, PartialEq)]
